@@ -194,6 +194,8 @@ def run(ctx):
         w = np.array(lay['w'], np.float64)
         exp = a if kind == 'sum' else np.where(w == 0, 0., a / np.where(w == 0, 1, w))
         gotf = np.asarray(got, np.float64).reshape(-1)
+        if gotf.size == 1 and exp.size > 1 and not any(any(s_ != 0 for s_ in b) for b in lay['layout']):
+          gotf = np.broadcast_to(gotf, exp.shape)   # no real example at all: the metric's (scalar) zero statistic
         replayed += 1
         ctx.case(key=(m, repr(key), repr(lay['layout']), how), nontrivial=len(lay['layout']) >= 2 or any(0 in b for b in lay['layout']))
         if gotf.shape != exp.shape or np.any(np.isnan(gotf)) or not np.allclose(gotf, exp, rtol=1e-6, atol=0):
